@@ -206,6 +206,11 @@ def r2_roundtrip(a, tier):
         ('[ ]', lambda x: b.box('Optional', x), lambda i: ('opt', i)), ('{ }', lambda x: b.box('Closure', x), lambda i: ('clo', i)),
         ('{ }+', lambda x: b.box('PositiveClosure', x), lambda i: ('pclo', i)), ('(?: )', lambda x: b.box('SkipGroup', x), lambda i: ('skipgroup', i)),
         ('element of a join', lambda x: b.join('Join', x, T(',')), lambda i: ('join', ('tok', ','), i)),
+        ('element of a positive join', lambda x: b.join('PositiveJoin', x, T(',')), lambda i: ('pjoin', ('tok', ','), i)),
+        ('element of a gather', lambda x: b.join('Gather', x, T(',')), lambda i: ('gather', ('tok', ','), i)),
+        ('element of a positive gather', lambda x: b.join('PositiveGather', x, T(',')), lambda i: ('pgather', ('tok', ','), i)),
+        ('element of a left join', lambda x: Stub(f'{PEG}.deprecated.LeftJoin', exp=x, sep=T('+')), lambda i: ('ljoin', ('tok', '+'), i)),
+        ('element of a right join', lambda x: Stub(f'{PEG}.deprecated.RightJoin', exp=x, sep=T('^')), lambda i: ('rjoin', ('tok', '^'), i)),
     ]
     for wname, wmk, wir in term_wrappers + bracket_wrappers:
         for aname, amk, air in atoms:
